@@ -5,11 +5,12 @@ ROOT = os.path.dirname(os.path.dirname(os.path.abspath(__file__)))
 sys.path.insert(0, os.path.join(ROOT, 'harness'))
 ids = [json.loads(l)['id'] for l in open(os.path.join(ROOT, 'properties.jsonl'))]
 NA = json.load(open(os.path.join(ROOT, 'tools', 'not_applicable.json')))
+READY = set(json.load(open(os.path.join(ROOT, 'tools', 'ready.json'))))
 HOOK_COMMITS = json.load(open(os.path.join(ROOT, 'tools', 'hook_commits.json')))
 checks, na, engines = [], [], {}
 for i in ids:
     p = os.path.join(ROOT, 'harness', 'vf', 'props', i + '.py')
-    if not os.path.exists(p) or i in NA.get('force', {}):
+    if not os.path.exists(p) or i not in READY or i in NA.get('force', {}):
         na.append({'property_id': i, 'reason': NA.get('force', {}).get(i) or NA.get('reasons', {}).get(i) or 'not built yet: no TLA+ specification and conformance harness exists for this property in this tree'})
         continue
     m = importlib.import_module('vf.props.' + i).META
